@@ -1,8 +1,8 @@
 (* C04 -- Authorization decisions follow the scoped-Datalog semantics.
    Statements only; proofs in Proofs/AuthProofs.v and Proofs/DatalogProofs.v.
    [decide] runs on the saturated world, whose content is characterised by C05. *)
-From Biscuit Require Import Model.Authorizer Spec.DatalogSpec Proofs.ValueProofs
-     Proofs.DatalogProofs Proofs.AuthProofs.
+From Biscuit Require Import Model.Authorizer Spec.DatalogSpec Spec.AuthSpec Proofs.ValueProofs
+     Proofs.DatalogProofs Proofs.AuthProofs Proofs.AuthSpecProofs.
 
 (* a fact is offered to a rule/check/policy iff every block that contributed to it is trusted *)
 Theorem C04_visible_iff : forall tr facts p,
@@ -148,6 +148,33 @@ Theorem C04_query_all_trust : forall km nb q x,
   (In x (query_all_trust km nb q) <-> x = auth_id \/ (x <= N.of_nat nb)%N).
 Proof. exact query_all_trust_default. Qed.
 Print Assumptions C04_query_all_trust.
+
+(* EXEC REFINES SPEC.  Spec/AuthSpec.v reads checks and policies declaratively over the
+   DERIVABLE facts of the world (no lists, no order): [Matches] = some binding of visible
+   derivable facts satisfies the expressions; [CheckHolds] = the property's three kinds.  On a
+   saturated world every error-free evaluation of the list-based, first-match code returns that
+   truth value, whatever the order of facts and alternatives. *)
+Theorem C04_exec_refines_spec : forall (orc : oracles) (W : world) m fs,
+  saturate orc m (w_rules W) (w_facts W) = Ok (Some fs) ->
+  forall default cur km c b,
+    check_passes orc true fs default cur km c = Ok b ->
+    (b = true <-> CheckHolds orc W default cur km c).
+Proof. exact check_refines. Qed.
+Print Assumptions C04_exec_refines_spec.
+
+Theorem C04_policy_refines_spec : forall (orc : oracles) (W : world) m fs,
+  saturate orc m (w_rules W) (w_facts W) = Ok (Some fs) ->
+  forall default km p b,
+    any_query orc CkOne fs default auth_id km (pqueries p) = Ok b ->
+    (b = true <-> PolicyMatches orc W default km p).
+Proof. exact policy_refines. Qed.
+Print Assumptions C04_policy_refines_spec.
+
+Theorem C04_match_refines_spec : forall (orc : oracles) (W : world) m fs,
+  saturate orc m (w_rules W) (w_facts W) = Ok (Some fs) ->
+  forall tr q b, find_match orc fs tr q = Ok b -> (b = true <-> Matches orc W tr q).
+Proof. exact find_match_refines. Qed.
+Print Assumptions C04_match_refines_spec.
 
 (* non-vacuity: a two-block token with a third-party block, a check trusting its key *)
 Definition ex4_orc := rj_orc.
